@@ -155,20 +155,47 @@ def small_topologies(max_nodes=3, max_branches=4):
 
 
 def add_salt(rng, desc, n_open=0, n_short=0):
-    """Add open and short branches (for C16): opens anywhere, shorts between existing nodes or to new nodes."""
+    """Add open and short branches (for C16). Opens go between existing nodes. Shorts: node splitting (a branch terminal is
+    re-attached to a fresh node that is shorted to the old one -> chains and stars), shorts in parallel to an existing short,
+    and shorts across an existing passive branch (which becomes a self-loop when contracted)."""
     import copy
     d = copy.deepcopy(desc)
-    ns = []
-    for b in d['branches']:
-        for n in (b['n1'], b['n2']):
-            if n not in ns:
-                ns.append(n)
+
+    def nodes_now():
+        ns = []
+        for b in d['branches']:
+            for n in (b['n1'], b['n2']):
+                if n not in ns:
+                    ns.append(n)
+        return ns
     used_ids = {b['id'] for b in d['branches']}
-    free_ids = [i for i in ID_POOL + ['S1', 'S2', 'S3', 'S4', 'S5', 'O1', 'O2', 'O3', 'O4', 'O5'] if i not in used_ids]
+    free_ids = [i for i in ['S1', 'S2', 'S3', 'S4', 'S5', 'S6', 'O1', 'O2', 'O3', 'O4', 'O5', 'sh', 'op', '0s', 'zs', 'As'] + ID_POOL if i not in used_ids]
     rng.shuffle(free_ids)
-    free_nodes = [n for n in NODE_POOL if n not in ns]
+    free_nodes = [n for n in NODE_POOL + ['s1', 's2', 's3', 's4', 's5', 's6', '!', '~'] if n not in nodes_now()]
     rng.shuffle(free_nodes)
     for _ in range(n_open):
+        ns = nodes_now()
         a, b = rng.sample(ns, 2) if len(ns) >= 2 else (ns[0], ns[0])
         d['branches'].insert(rng.randrange(len(d['branches']) + 1), {'id': free_ids.pop(), 'n1': a, 'n2': b, 'ctor': 'open_circuit'})
+    for _ in range(n_short):
+        r = rng.random()
+        shorts = [b for b in d['branches'] if b['ctor'] == 'short_circuit']
+        if r < 0.6 or not d['branches']:
+            br = rng.choice(d['branches'])
+            end = rng.choice(['n1', 'n2'])
+            old, new = br[end], free_nodes.pop()
+            br[end] = new
+            pair = (old, new) if rng.random() < 0.5 else (new, old)
+            d['branches'].insert(rng.randrange(len(d['branches']) + 1), {'id': free_ids.pop(), 'n1': pair[0], 'n2': pair[1], 'ctor': 'short_circuit'})
+        elif r < 0.75 and shorts:
+            sb = rng.choice(shorts)
+            pair = (sb['n1'], sb['n2']) if rng.random() < 0.5 else (sb['n2'], sb['n1'])
+            d['branches'].insert(rng.randrange(len(d['branches']) + 1), {'id': free_ids.pop(), 'n1': pair[0], 'n2': pair[1], 'ctor': 'short_circuit'})
+        else:
+            cand = [b for b in d['branches'] if b['ctor'] in ('resistor', 'conductor', 'impedance', 'admittance') and b['n1'] != b['n2']]
+            if not cand:
+                continue
+            pb = rng.choice(cand)
+            pair = (pb['n1'], pb['n2']) if rng.random() < 0.5 else (pb['n2'], pb['n1'])
+            d['branches'].insert(rng.randrange(len(d['branches']) + 1), {'id': free_ids.pop(), 'n1': pair[0], 'n2': pair[1], 'ctor': 'short_circuit'})
     return d
